@@ -15,6 +15,8 @@ fn main() {
         "writer" => shpverif::cmd_writer::run(&a),
         "reader" => shpverif::cmd_reader::run(&a),
         "damage" => shpverif::cmd_damage::run(&a),
+        "crash" => shpverif::cmd_crash::run(&a),
+        "faults" => shpverif::cmd_faults::run(&a),
         c => {
             eprintln!("unknown command {}", c);
             std::process::exit(2);
